@@ -19,6 +19,7 @@ type c09limiter struct {
 	guards map[*types.Var]string    // guarded field → "Type.field"
 	types  map[*types.TypeName]bool // RateLimiter, MultiRateLimiter
 	tokens map[*types.Var]bool      // the tokens fields
+	cycle  map[*types.Var]bool      // the cycle fields
 	state  map[*types.Var]bool      // the state fields
 }
 
@@ -270,7 +271,7 @@ func c09Locks(c *core.Ctx) (*c09limiter, []*c09fn) {
 		return nil, nil
 	}
 	lim := &c09limiter{pkg: pkg, guards: map[*types.Var]string{}, types: map[*types.TypeName]bool{},
-		tokens: map[*types.Var]bool{}, state: map[*types.Var]bool{}}
+		tokens: map[*types.Var]bool{}, state: map[*types.Var]bool{}, cycle: map[*types.Var]bool{}}
 	for _, typ := range []string{"RateLimiter", "MultiRateLimiter"} {
 		n := namedType(c, c09lib, typ)
 		if n == nil {
@@ -285,6 +286,9 @@ func c09Locks(c *core.Ctx) (*c09limiter, []*c09fn) {
 			lim.guards[v] = typ + "." + fld
 			if fld == "tokens" {
 				lim.tokens[v] = true
+			}
+			if fld == "cycle" {
+				lim.cycle[v] = true
 			}
 			if fld == "state" {
 				lim.state[v] = true
@@ -585,9 +589,39 @@ func c09reserveOne(c *core.Ctx, lim *c09limiter, fn *c09fn, disabled string) {
 	// reservation stores: tokens (or an element) := something derived from the count
 	stores := map[ast.Node]bool{}
 	loops := map[ast.Stmt]bool{}
+	// write-backs of the (cycle, tokens) pair, whatever is stored
+	tokStores, cycStores := map[ast.Node]bool{}, map[ast.Node]bool{}
+	tokLoops, cycLoops := map[ast.Stmt]bool{}, map[ast.Stmt]bool{}
 	ast.Inspect(f.Body, func(n ast.Node) bool {
 		if _, isLit := n.(*ast.FuncLit); isLit {
 			return false
+		}
+		var targets []ast.Expr
+		switch s := n.(type) {
+		case *ast.AssignStmt:
+			targets = s.Lhs
+		case *ast.IncDecStmt:
+			targets = []ast.Expr{s.X}
+		}
+		for _, l := range targets {
+			sel := c09storeTarget(l)
+			if sel == nil {
+				continue
+			}
+			fld := c09fieldOf(f, sel)
+			ls := enclosingLoops(f.Body, n)
+			switch {
+			case lim.tokens[fld]:
+				tokStores[n] = true
+				if len(ls) > 0 {
+					tokLoops[ls[0]] = true
+				}
+			case lim.cycle[fld]:
+				cycStores[n] = true
+				if len(ls) > 0 {
+					cycLoops[ls[0]] = true
+				}
+			}
 		}
 		as, ok := n.(*ast.AssignStmt)
 		if !ok {
@@ -617,15 +651,33 @@ func c09reserveOne(c *core.Ctx, lim *c09limiter, fn *c09fn, disabled string) {
 		}
 		return true
 	})
-	const reserved = "ev:reserved"
+	const (
+		reserved = "ev:reserved"
+		tokEv    = "ev:tokensStored"
+		cycEv    = "ev:cycleStored"
+	)
 	res := analyze(c, f, flow.Config{
 		NoHavoc: true,
 		OnNode: func(st *flow.State, n ast.Node) {
 			if stores[n] {
 				st.Set(reserved, flow.True)
 			}
+			if tokStores[n] {
+				st.Set(tokEv, flow.True)
+			}
+			if cycStores[n] {
+				st.Set(cycEv, flow.True)
+			}
 		},
 		OnBlock: func(st *flow.State, b *cfg.Block) {
+			if b.Kind == cfg.KindRangeLoop || b.Kind == cfg.KindForLoop {
+				if tokLoops[b.Stmt] {
+					st.Set(tokEv, flow.True)
+				}
+				if cycLoops[b.Stmt] {
+					st.Set(cycEv, flow.True)
+				}
+			}
 			if (b.Kind == cfg.KindRangeLoop || b.Kind == cfg.KindForLoop) && loops[b.Stmt] {
 				// the loop that reserves element-wise is reached: the reservation is made for
 				// every dimension the loop covers
@@ -637,12 +689,28 @@ func c09reserveOne(c *core.Ctx, lim *c09limiter, fn *c09fn, disabled string) {
 		return
 	}
 	permits, rejects := 0, 0
-	var badPermit, badReject *flow.Exit
+	var badPermit, badReject, badPair *flow.Exit
+	pairWhy := ""
 	for _, ex := range res.Exits {
 		if ex.Kind != flow.ExitReturn {
 			continue
 		}
-		switch c09boolResult(f, ex, 0) {
+		// (cycle, tokens) denote "tokens reserved since the start of cycle `cycle`": the epoch
+		// must not be advanced without rebasing the count, and a rejected arrival must not
+		// leave half of the pair updated
+		tok, cyc := ex.State.Is(tokEv, flow.True), ex.State.Is(cycEv, flow.True)
+		verdict := c09boolResult(f, ex, 0)
+		if badPair == nil {
+			switch {
+			case cyc && !tok && verdict == flow.False:
+				badPair, pairWhy = ex, "a rejected arrival stores the current period into the cycle field while the tokens field still holds the count relative to the older period: every rejection in a later period cancels that period's refill of limitForPeriod permits, so the limiter keeps rejecting although the reservations have long been paid off"
+			case cyc && !tok:
+				badPair, pairWhy = ex, "the cycle field is advanced on a path that does not write the rebased count back to the tokens field: the refill of the elapsed periods is lost"
+			case tok && !cyc && verdict == flow.False:
+				badPair, pairWhy = ex, "a rejected arrival writes the tokens field but not the cycle field it is relative to: the count is decayed again on the next arrival (more than limitForPeriod requests are released per period)"
+			}
+		}
+		switch verdict {
 		case flow.True:
 			permits++
 			isDisabled := false
@@ -678,6 +746,9 @@ func c09reserveOne(c *core.Ctx, lim *c09limiter, fn *c09fn, disabled string) {
 			sprintf("%d permitting exit(s): each has stored tokens+count (or the limiter is disabled)", permits),
 			"a request is permitted without its tokens having been added to the reservation (and the limiter is not disabled): later arrivals see spare permits that are already used — more than limitForPeriod requests are released in the period", exitWitness(badPermit)...)
 	}
+	c.Check(badPair == nil, "R-C09-1", fn.name+"|cycle and tokens are written back together", pos(c, f.Body),
+		sprintf("%d exit(s): the cycle field is never stored without the tokens field, and a rejecting exit stores both or neither", permits+rejects),
+		pairWhy, exitWitness(badPair)...)
 	switch {
 	case rejects == 0:
 		c.Violate("R-C09-1", fn.name+"|reject exits reserve nothing", pos(c, f.Body), "the acquire function never rejects: no upper bound on reserved permits (waits grow beyond timeoutDuration)")
